@@ -478,9 +478,13 @@ class Interp:
         outs = []
         if lhs.get('k') == 'Ref' and lhs.get('dk') in ('local', 'parm'):
             key = (frame.key, lhs['id'])
+            # an 8/16-bit local holds what fits into it (`auto size = <uint16_t>; size += <32-bit length>` wraps at 65536)
+            bits = 8 * (self.type_size(lhs.get('t')) or 0)
             for s2, v in self.ev(e['rhs'], st, frame):
                 if compound:
                     v = sym.op(compound, s2.lenv.get(key, Lin.term(('local', lhs['name']))), v)
+                if bits in (8, 16) and 'bool' not in (lhs.get('t') or '') and not self.fits(v, bits):
+                    v = sym.trunc(v, bits)
                 s2.lenv[key] = v
                 outs.append(s2)
             return outs
